@@ -238,7 +238,12 @@ class Codec:
         tag, value = toks
 
         msg_length = len(msg[0]) + len(msg[1]) + len("10=000") + 3
-        if tag != FTag.BodyLength or not value.isdigit() or not value.isascii():
+        if (
+            tag != FTag.BodyLength
+            or not value.isdigit()
+            or not value.isascii()
+            or len(value) > 9
+        ):
             logging.error(f"*** BodyLength missing or not 2nd field *** [{tag}]: {msg}")
             assert silent, "2nd tag must be BodyLength"
             return (None, valid_idx + next_msg, None)
@@ -274,7 +279,7 @@ class Codec:
                 return (None, valid_idx + next_msg, None)
             tag, value = toks
 
-            if not tag.isdigit() or not tag.isascii():
+            if not tag.isdigit() or not tag.isascii() or len(tag) > 9:
                 assert silent, f"invalid tag {m}"
                 return (None, parsed_length, None)
 
